@@ -419,6 +419,27 @@ example : errOf (vectorBinop (V := Int) .add false .on ["job"]
     [([("job", "x")], 10)]
     [([("inst", "1"), ("job", "x")], 1), ([("inst", "2"), ("job", "x")], 2)]) = some .dupMatch := by decide
 
+/-! ### the one place where a range query is *not* its instants: the error rule -/
+
+section errorRule
+/-- two metrics that differ only in their name, with samples in different periods. -/
+def exDb : List (Series Int) :=
+  [⟨[("__name__", "m0"), ("a", "x")], [⟨10, 1, false⟩, ⟨20, 2, false⟩]⟩,
+   ⟨[("__name__", "m1"), ("a", "x")], [⟨110, 1, false⟩, ⟨120, 5, false⟩]⟩]
+def exExpr : Expr Int :=
+  .rfn .idelta 20 [⟨"__name__", .re, "", .alt (.lit "m0".toList) (.lit "m1".toList)⟩] 0
+
+def isOk {α : Type} (r : Except Err α) : Bool := (okOf r).isSome
+
+/-- each instant query succeeds (one series each, after the name is dropped) … -/
+example : isOk (evalSteps exDb 300 [20] exExpr) = true ∧ isOk (evalSteps exDb 300 [120] exExpr) = true := by decide
+/-- … but the range query over both timestamps is rejected: the engine checks duplicate
+output label sets of a range function over the whole range. `range_eq_instants` is therefore
+stated for successful range queries, and the model reproduces this rule (the `ref` lines of the
+correspondence compare error classes with the upstream engine). -/
+example : errOf (evalSteps exDb 300 [20, 120] exExpr) = some .dupLabelset := by decide
+end errorRule
+
 end vals
 
 end OG.C18
